@@ -333,6 +333,45 @@ def scenario_restart(chk, h, d, rng, fam):
         if _swap_ledger(d, led2) else False
 
 
+def scenario_restart_concurrent(chk, h, d, rng, fam):
+    """a normal worker P and a restart worker R (pattern host(<dead host>))
+    run at the same time on a job file in which some jobs are still ASSIGNED to
+    a host that died; R re-opens exactly those, P takes the available ones;
+    nobody's reported result may be replaced by a stale entry of the other."""
+    os.makedirs(d)
+    n = rng.choice([4, 6, 10, 16])
+    dead = "deadnode:4242"
+    initial = []
+    for i in range(1, n + 1):
+        r = rng.random()
+        if r < 0.4:
+            initial.append({"id": i, "status": "ASSIGNED", "host": dead})
+        elif r < 0.5:
+            initial.append({"id": i, "status": "COMPLETE", "host": "other:1", "output": "nonce=1;id=%d" % i})
+        else:
+            initial.append({"id": i, "status": "AVAILABLE"})
+    if not any(j["status"] == "ASSIGNED" for j in initial):
+        initial[0] = {"id": 1, "status": "ASSIGNED", "host": dead}
+    jf = os.path.join(d, "jobs.xml")
+    write_jobs(jf, initial)
+    env = vf.lib_env("asan")
+    led = os.path.join(d, "ledger")
+    procs = []
+    order = ["P", "R"] if rng.random() < 0.5 else ["R", "P"]
+    for who in order:
+        pat = "host(%s)" % dead if who == "R" else ""
+        procs.append(subprocess.Popen(
+            worker_cmd(h, jf, led, rng.randint(1, 2), rng.randint(1, 2), -1, pat,
+                       rng.randint(1, 10**6), 0.0, rng.choice([0.3, 0.8])),
+            env=env, stdout=subprocess.PIPE, stderr=subprocess.PIPE, cwd=d))
+        if rng.random() < 0.5:
+            time.sleep(rng.uniform(0, 0.05))
+    expected = set(j["id"] for j in initial if j["status"] == "AVAILABLE" or j.get("host") == dead)
+    wit = {"scenario": "restart-concurrent", "jobs": n, "order": order,
+           "initial": ["%d:%s:%s" % (j["id"], j["status"], j.get("host")) for j in initial]}
+    return finish_procs(chk, fam, procs, d, initial, wit, expected_exec=expected)
+
+
 def _swap_ledger(d, led):
     # finish_procs reads d/ledger
     dst = os.path.join(d, "ledger")
@@ -662,6 +701,13 @@ def run(chk):
         jobs.append(lambda d=d, r=r: scenario_restart(chk, h, d, r, "restart"))
     for i, ok in enumerate(vf.run_parallel(jobs, 8)):
         account("restart_patterns", ("r", i), ok)
+    jobs = []
+    for i in range(vf.tier_n(chk.tier, 24, 300)):
+        d = os.path.join(work, "rconc%d" % i)
+        r = random.Random(rng.randint(1, 10**9))
+        jobs.append(lambda d=d, r=r: scenario_restart_concurrent(chk, h, d, r, "restart_concurrent"))
+    for i, ok in enumerate(vf.run_parallel(jobs, 8)):
+        account("restart_concurrent_with_worker", ("rc", i), ok)
     phase("restart")
     # C: crash points
     tried, crashed, exhaustive = scenario_crashes(chk, h, work, rng, "crash", crash_budget)
